@@ -36,6 +36,9 @@ def primOf : String → Option Ty
   | "nu8" => some .u8 | "ni16" => some .i16 | "nu32" => some .u32 | "ni64" => some .i64
   -- floats travel as their IEEE bit patterns: encoding/binary writes Float32bits / Float64bits
   | "f32" => some .u32 | "f64" => some .u64
+  -- two distinct Go struct types that share their name (harness: localRecA / localRecB)
+  | "recA" => some (.struct [.u32, .u32])
+  | "recB" => some (.struct [.u16, .array 2 (.array 2 .u8)])
   | _ => none
 
 mutual
